@@ -90,8 +90,31 @@ def rand_fe(rng):
     return rng.randrange(0, P)
 
 
+SAT = 2**51 - 1
+
+
+def near_p_limbs(rng):
+    """loose representations of values in [p - 40, 2^255 + 2^20): saturated limbs with a carry parked at one position,
+    low limb around 2^51 - 19"""
+    l = [SAT] * 5
+    c = rng.random()
+    if c < 0.4:
+        i = rng.randrange(5)
+        l[i] = 2**51 + rng.choice([0, 1, 18, 19, 37])
+        for j in range(i):
+            l[j] = rng.choice([0, 1, 18, 19, SAT])
+    elif c < 0.7:
+        l[0] = 2**51 - rng.choice([1, 18, 19, 20, 37, 38, 39])
+    else:
+        l[0] = 2**51 - 19 + rng.randrange(0, 64)
+        l[rng.randrange(1, 5)] += rng.choice([0, 1])
+    return l
+
+
 def rand_limbs(rng, within_inv=True):
     """a limb vector inside the invariant, biased to its boundary"""
+    if rng.random() < 0.2:
+        return near_p_limbs(rng)
     out = []
     for _ in range(5):
         c = rng.random()
@@ -129,12 +152,39 @@ def torsion():
     return _TORSION
 
 
+_SMALL = None
+
+
+def small_coord_points():
+    """curve points with a tiny x or a tiny y (their field products come out as p + k in limb form)"""
+    global _SMALL
+    if _SMALL is None:
+        out = []
+        for x in range(1, 60):
+            num, den = (1 + x * x) % P, (1 - spec.D * x * x) % P
+            q = num * spec.inv(den) % P
+            if spec.is_square(q):
+                y = spec.sqrt(q)
+                for xx in (x, P - x):
+                    for yy in (y, P - y):
+                        out.append((xx, yy))
+        for y in range(2, 60):
+            q = spec.decode_point(y.to_bytes(32, "little"))
+            if q is not None:
+                out.append(q)
+                out.append(spec.neg(q))
+        _SMALL = [q for q in out if spec.on_curve(*q)]
+    return _SMALL
+
+
 def rand_point(rng):
-    """an affine curve point: torsion / small multiples of B / B-multiples plus torsion / random"""
+    """an affine curve point: torsion / small coordinates / small multiples of B / B-multiples plus torsion / random"""
     c = rng.random()
-    if c < 0.2:
+    if c < 0.15:
         return rng.choice(torsion())
-    if c < 0.35:
+    if c < 0.3:
+        return rng.choice(small_coord_points())
+    if c < 0.4:
         return spec.smul(rng.choice([1, 2, 3, 7, 8, L - 1, L]), spec.B)
     if c < 0.6:
         return spec.add(spec.smul(rng.randrange(1, L), spec.B), rng.choice(torsion()))
@@ -341,6 +391,14 @@ def gen_C04(rng, tier):
         pr.emit("P.Bytes", v, o)
     pr.tag("non-canonical encodings")
     cases.append(pr)
+    pr = Prog(rng)
+    pts = small_coord_points()
+    for q in (pts if tier == "thorough" else rng.sample(pts, min(40, len(pts)))):
+        v = pr.point_zero()
+        pr.emit("P.SetBytes", v, pr.bytes_(spec.encode_point(q)))
+        pr.emit("P.Bytes", v, pr.fresh("o"))
+    pr.tag("points with tiny x or y")
+    cases.append(pr)
     for _ in range(scale(tier, 6, 80)):
         pr = Prog(rng)
         for _ in range(20):
@@ -398,11 +456,45 @@ def gen_C05(rng, tier):
         pr.emit("P.Equal", w, v)
     pr.tag("re-encoding of non-canonical inputs")
     cases.append(pr)
+    # encode after every kind of write to the same receiver (a stale cached encoding is history dependent)
+    for _ in range(scale(tier, 3, 30)):
+        pr = Prog(rng)
+        rs = [point_in(pr, rng) for _ in range(2)]
+        src = [point_in(pr, rng) for _ in range(3)]
+        k = pr.scalar(rand_scalar(rng))
+        for r in rs:
+            pr.emit("P.Bytes", r, pr.fresh("o"))
+        for _ in range(scale(tier, 14, 40)):
+            r = rng.choice(rs)
+            a, b = rng.choice(src + rs), rng.choice(src + rs)
+            w = rng.choice(["P.Add", "P.Negate", "P.Set", "P.SetBytes", "P.SetExtendedCoordinates", "P.MultByCofactor", "P.Subtract", "P.ScalarMult"])
+            if w in ("P.Add", "P.Subtract"):
+                pr.emit(w, r, a, b)
+            elif w in ("P.Negate", "P.Set", "P.MultByCofactor"):
+                pr.emit(w, r, a)
+            elif w == "P.SetBytes":
+                pr.emit(w, r, pr.bytes_(spec.encode_point(rand_point(rng))))
+            elif w == "P.ScalarMult":
+                pr.emit(w, r, k, a)
+            else:
+                X, Y, Z, T = (pr.fresh("c") for _ in range(4))
+                pr.emit("P.ExtendedCoordinates", a, X, Y, Z, T)
+                pr.emit(w, r, X, Y, Z, T)
+            pr.emit("P.Bytes", r, pr.fresh("o"))
+        pr.tag("encode after every write to the same receiver")
+        cases.append(pr)
     return cases
 
 
 def gen_C06(rng, tier):
     cases = []
+    pr = Prog(rng)
+    tn = [point_in(pr, rng, t) for t in torsion()]
+    for a in tn:
+        for b in tn:
+            pr.emit("P.Equal", a, b)
+    pr.tag("all pairs of small-order points (some rescaled)")
+    cases.append(pr)
     for _ in range(scale(tier, 10, 150)):
         pr = Prog(rng)
         q = rand_point(rng)
@@ -524,6 +616,20 @@ def gen_C08(rng, tier):
             pr.emit(op, s, b)
     pr.tag("all lengths 0..70")
     cases.append(pr)
+    pr = Prog(rng)
+    s = pr.scalar(rand_scalar(rng))
+    for n in [L, L + 1, L - 1, 2 * L, 2 * L - 1, 2**252, 2**252 + 2**247, 2**252 + 2**248, 2**253 - 1, 2**255, 2**256 - 1, 0, 1,
+              L << 8, (L << 256), (L << 256) + L, (L << 256) - 1, 2**511, 2**512 - 1, L * (2**259) + 5, 2**168, 2**336, 2**168 - 1, 2**336 - 1]:
+        pr.emit("S.SetUniformBytes", s, pr.bytes_((n % 2**512).to_bytes(64, "little")))
+        pr.emit("S.Bytes", s, pr.fresh("o"))
+    # receivers holding a value before clamping / uniform setting
+    for _ in range(4):
+        r = pr.scalar(rand_scalar(rng))
+        pr.emit("S.SetBytesWithClamping", r, pr.bytes_(rng.randbytes(32)))
+        pr.emit("S.SetBytesWithClamping", r, pr.bytes_(rng.randbytes(32)))
+        pr.emit("S.SetUniformBytes", r, pr.bytes_(rng.randbytes(64)))
+    pr.tag("zero-extended / multiple-of-l wide inputs; used receivers")
+    cases.append(pr)
     for _ in range(scale(tier, 6, 100)):
         pr = Prog(rng)
         s = pr.scalar(None)
@@ -622,6 +728,36 @@ def gen_C10(rng, tier):
             pr.emit("E.IsNegative", n)
             o = pr.fresh("o")
             pr.emit("E.Bytes", n, o)
+        # single-bit differences (every limb position) and loose forms around p
+        base = rng.randrange(P)
+        bn = pr.elem(base)
+        for k in ([rng.randrange(255) for _ in range(12)] + [31, 32, 33, 47, 48, 50, 51, 83, 99, 150, 201, 254]):
+            o_ = pr.elem((base + 2**k) % P)
+            pr.emit("E.Equal", bn, o_)
+            pr.emit("E.Equal", o_, bn)
+        for _ in range(6):
+            lp = near_p_limbs(rng)
+            n1 = pr.elem(limbs=lp)
+            n2 = pr.elem(spec.fe_val(lp) % P)
+            pr.emit("E.IsNegative", n1)
+            pr.emit("E.Equal", n1, n2)
+            pr.emit("E.Bytes", n1, pr.fresh("o"))
+            ab = pr.elem(0)
+            pr.emit("E.Absolute", ab, n1)
+            sel = pr.elem(0)
+            pr.emit("E.Select", sel, n1, n2, 1)
+            pr.emit("E.Swap", n1, n2, 1)
+        # values reached by arithmetic from the non-canonical 2^255-1
+        top = pr.elem(0)
+        pr.emit("E.SetBytes", top, pr.bytes_(le32(2**255 - 1)))
+        one = pr.elem(1)
+        acc = pr.elem(0)
+        pr.emit("E.Add", acc, top, one)
+        pr.emit("E.IsNegative", acc)
+        pr.emit("E.Mult32", acc, top, 3)
+        pr.emit("E.Add", acc, acc, one)
+        pr.emit("E.IsNegative", acc)
+        pr.emit("E.Bytes", acc, pr.fresh("o"))
         for cond in (0, 1):
             w = pr.elem(rand_fe(rng))
             pr.emit("E.Select", w, a, bnd, cond)
@@ -760,11 +896,13 @@ def gen_C12(rng, tier):
                 pr.emit("P.ExtendedCoordinates", a, X, Y, Z, T)
                 if rng.random() < 0.3:
                     pr.emit("E.Add", rng.choice([X, Y, Z, T]), X, Y)   # usually invalidates
-                elif rng.random() < 0.3:
-                    pr.emit("E.Zero", X)
-                    pr.emit("E.Zero", Y)
-                    pr.emit("E.Zero", Z)
-                    pr.emit("E.Zero", T)
+                elif rng.random() < 0.5:
+                    if rng.random() < 0.5:
+                        for c_ in (X, Y, Z, T):
+                            pr.emit("E.Zero", c_)
+                    else:
+                        for c_ in (X, Y, Z, T):
+                            pr.emit("E.Subtract", c_, c_, c_)     # value 0 held in non-zero limbs
                 pr.emit(op, v, X, Y, Z, T)
                 if v not in init:
                     continue
